@@ -68,6 +68,7 @@ type Prog struct {
 	effects    map[*Func]*Effects
 	defs       map[*Func]map[types.Object][]ast.Node
 	ifaceUsed  map[*types.TypeName]bool
+	synthNil   *ast.Ident
 	synthRange map[*ast.RangeStmt]bool // range statements synthesised by normalizeAST
 }
 
